@@ -1,7 +1,9 @@
 #!/bin/sh
-# tools/matrix.sh <tier> : every seeded change and every notes mutant x the check of its own property (+ extra props given as args)
-tier=${1:-quick}
-out=/verif/mutants/matrix_$tier.txt
+# tools/matrix.sh <tier> [<regex over seeded ids / "notes:<name>"> [<output suffix>]]
+# every seeded change and every notes mutant (matching the regex) x the check of its own property.
+# Criterion for "reported": exit 1 AND at least one VIOLATION line.
+tier=${1:-quick}; filter=${2:-.}; suffix=${3:-}
+out=/verif/mutants/matrix_$tier$suffix.txt
 : > $out
 run() { # patch props...
   p=$1; shift
@@ -10,17 +12,19 @@ run() { # patch props...
 n=0
 for d in /verif/seeded/*/; do
   id=$(basename $d); prop=$(echo $id | sed "s/^W[0-9]//" | cut -c1-3)
+  echo "$id" | grep -Eq "$filter" || continue
   run $d/patch.diff $prop &
-  n=$((n+1)); [ $((n % 6)) -eq 0 ] && wait
+  n=$((n+1)); [ $((n % 5)) -eq 0 ] && wait
 done
 wait
 for name in $(cd /verif && /venv/bin/python -c "
 import sys; sys.path.insert(0,'notes')
 from mutant_candidates import SURVIVORS
 print(' '.join(SURVIVORS))"); do
+  echo "notes:$name" | grep -Eq "$filter" || continue
   prop=$(echo $name | cut -c1-3 | tr c C)
   run notes:$name $prop &
-  n=$((n+1)); [ $((n % 6)) -eq 0 ] && wait
+  n=$((n+1)); [ $((n % 5)) -eq 0 ] && wait
 done
 wait
 sort $out -o $out
